@@ -46,6 +46,10 @@ type C10Case struct {
 	Router    string      `json:"router"`
 	Tail      []string    `json:"tail,omitempty"` // further requests on the same container: "" normal, else a position
 	OnlyPos   string      `json:"only_pos,omitempty"`
+	// Defaults: instead of a generated chain, the documented default is checked on untouched
+	// containers - a new one and the package-level DefaultContainer as init() built it: recovery
+	// is off, a panic reaches the caller unchanged
+	Defaults bool `json:"defaults,omitempty"`
 }
 
 type panicToken struct{ pos string }
@@ -378,7 +382,40 @@ func (e *c10Env) usable(c C10Case, where string) (vs []*Violation) {
 	return vs
 }
 
+var c10DefaultOnce bool
+
+func checkC10Defaults() (vs []*Violation) {
+	st := stats.For("C10", "TestC10")
+	for name, ct := range map[string]*restful.Container{"NewContainer()": restful.NewContainer(), "the package-level DefaultContainer": harness.OriginalDefaultContainer} {
+		if name != "NewContainer()" && c10DefaultOnce {
+			continue // its ServeMux is http.DefaultServeMux: a root path can only be added once per process
+		}
+		ws := new(restful.WebService)
+		ws.Path("/verif-c10-defaults")
+		tok := &panicToken{"default"}
+		ws.Route(ws.GET("/p").To(func(*restful.Request, *restful.Response) { panic(tok) }))
+		ct.Add(ws)
+		if name != "NewContainer()" {
+			c10DefaultOnce = true
+		}
+		var escaped interface{}
+		w := httptest.NewRecorder()
+		func() {
+			defer func() { escaped = recover() }()
+			ct.Dispatch(w, harness.NewHTTPRequest(model.ReqSpec{Method: "GET", Path: "/verif-c10-defaults/p"}, "d"))
+		}()
+		if escaped != tok {
+			vs = append(vs, viol("", "%s, nothing configured: recovery is documented to be off by default, but a panic in a route function did not reach the caller unchanged (recovered value %v, status %d)", name, escaped, w.Code))
+		}
+		st.Case(C10Case{Defaults: true, Provider: name}, true, "defaults_check")
+	}
+	return vs
+}
+
 func checkC10(c C10Case) (vs []*Violation) {
+	if c.Defaults {
+		return checkC10Defaults()
+	}
 	st := stats.For("C10", "TestC10")
 	defer harness.ResetGlobals()
 	positions := c.positions()
@@ -433,6 +470,10 @@ func checkC10(c C10Case) (vs []*Violation) {
 }
 
 func TestC10(t *testing.T) {
+	if vs := checkC10(C10Case{Defaults: true}); len(vs) > 0 {
+		saveFound("C10", "TestC10", C10Case{Defaults: true}, vs[0])
+		t.Fatalf("C10: %s", vs[0].Msg)
+	}
 	rapid.Check(t, func(t *rapid.T) {
 		harness.ResetGlobals()
 		c := genC10(t)
